@@ -30,6 +30,9 @@ func Harness_C12_children_exact() {
 		deleted = 1
 	}
 	p.VerifInsert(&models.Header{Name: child, Typeflag: tar.TypeReg, Deleted: deleted, Paxrecords: "{}"})
+	// the directory's own name reused one level down below the sibling
+	p.VerifInsert(&models.Header{Name: sib + d, Typeflag: tar.TypeDir, Paxrecords: "{}"})
+	p.VerifInsert(&models.Header{Name: sib + d + "/z", Typeflag: tar.TypeReg, Paxrecords: "{}"})
 
 	got, err := p.GetHeaderChildren(context.Background(), d)
 	vm.Assert("C12.children_no_error", err == nil)
@@ -50,5 +53,5 @@ func Harness_C12_children_exact() {
 		}
 	}
 	vm.Cover("C12.wildcard_in_dir", wild)
-	vm.Cover("C12.child_listed", len(got) == 1)
+	vm.Cover("C12.child_listed", len(got) >= 1)
 }
